@@ -324,19 +324,18 @@ def main(tier):
     thorough = tier == "thorough"
     chk.assumptions = ["content identity by SHA-256 of the bytes", "reflink success emulated only in C05; here `dedupe` runs natively (fails with EOPNOTSUPP and must then change nothing)",
                        "the documented-dangerous combination --match-links --symbolic-links is not generated"]
-    # design level: group ; remove composed over a 4-path universe (Dedupe.tla)
-    for across in ("FALSE", "TRUE"):
-        cfgp = os.path.join(lib.BUILD, f"Dedupe_{across}.cfg")
+    # design level: group ; remove composed over a 4-path universe (Dedupe.tla), with the repair of partition() (Rescue): the file a
+    # retained symbolic link resolves to is retained too.  Without it TLC must find the loss (-S --isolate, link in one root, target in the other)
+    for across, rescue, must_hold in (("FALSE", "TRUE", True), ("TRUE", "TRUE", True), ("TRUE", "FALSE", False)):
+        cfgp = os.path.join(lib.BUILD, f"Dedupe_{across}_{rescue}.cfg")
         with open(cfgp, "w") as f:
-            f.write(f"CONSTANT SymlinksAcrossRoots = {across}\nSPECIFICATION Spec\nINVARIANT ContentKept\nCHECK_DEADLOCK FALSE\n")
+            f.write(f"CONSTANTS\n  SymlinksAcrossRoots = {across}\n  Rescue = {rescue}\nSPECIFICATION Spec\nINVARIANTS ContentKept NoDangling\nCHECK_DEADLOCK FALSE\n")
         res = lib.run_tlc("Dedupe.tla", cfgp, workers=8, timeout=900)
-        chk.add_tlc(f"Dedupe[SymlinksAcrossRoots={across}]", res)
-        if res.violation and across == "FALSE":
-            chk.violation(f"C02/model {res.violation}", "group;remove loses content in the composition model", {"tlc": res.output[-2500:]})
-        elif res.violation:
-            chk.violation("C02/model ContentKept flags=SI feat=reported-symlink-across-isolate-roots",
-                          "composition model: with -S --isolate a link in one root to a file in the other root counts as two replicas; remove deletes the only regular file",
-                          {"tlc": res.output[-1500:]})
+        chk.add_tlc(f"Dedupe[SymlinksAcrossRoots={across}, Rescue={rescue}]" + ("" if must_hold else " (the code before the repair: must be refuted)"), res)
+        if must_hold and res.violation:
+            chk.violation(f"C02/model {res.violation} across={across}", "group;remove loses content (or leaves a retained link dangling) in the composition model", {"tlc": res.output[-2500:]})
+        if not must_hold and res.violation != "ContentKept":
+            raise lib.ToolError(f"vacuity: Dedupe.tla does not refute the partition without the repair (got {res.violation})")
     lib.build_all()
     rng = random.Random(chk.seed)
     n = 2500 if thorough else 500
